@@ -6,7 +6,8 @@
    dimensions  path x stage x start x end x tag x message x level x extra.                    *)
 EXTENDS Report
 
-CONSTANTS Dist, BaseTag
+CONSTANTS Dist, BaseTag,
+          ExtraDim     \* which "extra" variations are in use: ExtrasBasic or ExtrasFull (cfg: ExtraDim <- ...)
 
 FA == [path |-> "a.proto", text |-> <<"a", "b", "c">>]
 FB == [path |-> "b.proto", text |-> <<"a", "b">>]
@@ -20,7 +21,22 @@ EndDim   == {1, 2}
 TagDim   == {"", "t", "u"}
 MsgDim   == {"m", "n"}
 LevelDim == {"error", "warning"}
-ExtraDim == {"", "note", "help", "debug", "ann2", "infile"}
+(* The "extra" dimension varies exactly one field that is NOT a sort key.  ExtrasFull has, for
+   every field of a diagnostic and of its annotations and edits, two values that differ only in
+   that field (so each pair of them ties on all six documented keys):
+     note/note2, help/help2, debug/debug2   the text of a note / help / debug line
+     note vs help vs debug                   the same text in a different list
+     notes2                                  the number of notes
+     infile/infile2                          the in-file path
+     pmsg, ppb                               the primary annotation's message / page break
+     pedit, pedit2, pedit3, pedits2          the primary annotation's edits: one edit, another
+                                             replacement, another edit range, two edits
+     ann2, ann2m, ann2s, ann2f, ann2pb, ann2e  a secondary annotation, and its message / span /
+                                             file / page break / edit varied                    *)
+ExtrasBasic == {"", "note", "help", "debug", "ann2", "infile"}
+ExtrasFull  == ExtrasBasic \cup {"note2", "help2", "debug2", "notes2", "infile2", "pmsg", "ppb",
+                                 "pedit", "pedit2", "pedit3", "pedits2",
+                                 "ann2m", "ann2s", "ann2f", "ann2pb", "ann2e"}
 
 Vec == [path : PathDim, stage : StageDim, start : StartDim, end : EndDim, tag : TagDim,
         msg : MsgDim, level : LevelDim, extra : ExtraDim]
@@ -31,14 +47,34 @@ Distance(v) == Cardinality({k \in Dims : v[k] # Base[k]})
 
 (* the diagnostic a vector stands for, built with the constructor operators *)
 Build(v) ==
-  LET d0 == NewDiag(v.level, v.msg, v.stage)
+  LET x  == v.extra
+      hasP == v.path # ""
+      E(a, b, r) == [start |-> a, end |-> b, replace |-> r]
+      d0 == NewDiag(v.level, v.msg, v.stage)
       d1 == IF v.tag = "" THEN d0 ELSE WithTag(d0, v.tag)
-      d2 == IF v.extra = "infile" THEN WithInFile(d1, "z.proto") ELSE d1
-      d3 == IF v.path = "" THEN d2 ELSE WithSnippet(d2, FileOf(v.path), v.start, v.end, "")
-      d4 == IF v.extra = "ann2" /\ v.path # "" THEN WithSnippet(d3, FB, 0, 0, "am") ELSE d3
-      d5 == IF v.extra = "note" THEN WithNote(d4, "x1") ELSE d4
-      d6 == IF v.extra = "help" THEN WithHelp(d5, "x1") ELSE d5
-      d7 == IF v.extra = "debug" THEN WithDebug(d6, "x1") ELSE d6
+      d2 == CASE x = "infile" -> WithInFile(d1, "z.proto") [] x = "infile2" -> WithInFile(d1, "e.proto") [] OTHER -> d1
+      (* the primary annotation; spans are at least one byte long, so edit ranges 0..1 fit *)
+      d3 == IF ~ hasP THEN d2
+            ELSE CASE x = "pmsg"    -> WithSnippet(d2, FileOf(v.path), v.start, v.end, "am")
+                   [] x = "ppb"     -> WithPageBreak(WithSnippet(d2, FileOf(v.path), v.start, v.end, ""))
+                   [] x = "pedit"   -> WithSuggest(d2, FileOf(v.path), v.start, v.end, "", << E(0, 0, "r") >>)
+                   [] x = "pedit2"  -> WithSuggest(d2, FileOf(v.path), v.start, v.end, "", << E(0, 0, "ru") >>)
+                   [] x = "pedit3"  -> WithSuggest(d2, FileOf(v.path), v.start, v.end, "",
+                                                   << E(0, IF v.end > v.start THEN 1 ELSE 0, "r") >>)
+                   [] x = "pedits2" -> WithSuggest(d2, FileOf(v.path), v.start, v.end, "", << E(0, 0, "r"), E(0, 0, "ru") >>)
+                   [] OTHER         -> WithSnippet(d2, FileOf(v.path), v.start, v.end, "")
+      d4 == IF ~ hasP THEN d3
+            ELSE CASE x = "ann2"   -> WithSnippet(d3, FB, 0, 0, "am")
+                   [] x = "ann2m"  -> WithSnippet(d3, FB, 0, 0, "au")
+                   [] x = "ann2s"  -> WithSnippet(d3, FB, 0, 1, "am")
+                   [] x = "ann2f"  -> WithSnippet(d3, FA, 0, 0, "am")
+                   [] x = "ann2pb" -> WithPageBreak(WithSnippet(d3, FB, 0, 0, "am"))
+                   [] x = "ann2e"  -> WithSuggest(d3, FB, 0, 0, "am", << E(0, 0, "r") >>)
+                   [] OTHER        -> d3
+      d5 == CASE x = "note" -> WithNote(d4, "x1") [] x = "note2" -> WithNote(d4, "x2")
+              [] x = "notes2" -> WithNote(WithNote(d4, "x1"), "x1") [] OTHER -> d4
+      d6 == CASE x = "help" -> WithHelp(d5, "x1") [] x = "help2" -> WithHelp(d5, "x2") [] OTHER -> d5
+      d7 == CASE x = "debug" -> WithDebug(d6, "x1") [] x = "debug2" -> WithDebug(d6, "x2") [] OTHER -> d6
   IN d7
 
 Universe == {Build(v) : v \in {w \in Vec : Distance(w) <= Dist}}
